@@ -147,3 +147,17 @@ add("C07",
     shards={"quick": 16, "thorough": 16},
     require_counts=["unchanged_backups", "edits_with_reused_chunks", "edits_resynchronised_after_change", "tree_data_id_collisions_kept"],
     )
+
+add("C11",
+    engine="SEQ",
+    level="model_checking",
+    technique="exhaustive enumeration of (parent state, edit script, parent options, damage) histories with a differential oracle: parent-based backup vs forced full backup on the real code",
+    design_ref="DESIGN.md §4.1, §5 C11",
+    level_text="For three base sources, every edit script of length 1 and 2 over 14 edits (content change with size / mtime only / ctime only / nothing else, touch, rename, file<->dir, file->symlink, add, remove, "
+               "insert a name sorting between existing ones, inode change), seven parent option sets (latest, explicit, two parents, ignore-ctime, ignore-inode, skip-if-unchanged, force) and parents with or without a lost data pack, "
+               "the real parent-based backup and a forced full backup of the same source are run on clones of the same repository. Whenever the statement's precondition holds the tree ids must be equal, the new snapshot must read back to the source "
+               "(through an independent decoder), skip-if-unchanged must write a snapshot iff the tree differs, and the summary's new/changed/unmodified counts must match the edit.",
+    level_note="Cases where content changed without size/mtime/(ctime) change are run but not judged (the statement excludes them). Sources are small; mtimes/ctimes/inodes are synthetic (in-memory source seam).",
+    shards={"quick": 16, "thorough": 16},
+    require_counts=["damaged_parent_cases", "judged_cases", "precondition_false_not_judged", "skipped_snapshots"],
+    )
